@@ -1,6 +1,7 @@
 //! C17 correspondence harness: drives the real OrphanBlockPool (ckb-chain),
 //! InflightBlocks (ckb-sync), HeaderMap and HeaderIndexView skip list
-//! (ckb-shared) and ActiveChain::get_locator on bounded-exhaustive and random
+//! (ckb-shared), ActiveChain::get_locator / get_ancestor / last_common_ancestor (header-only
+//! chains, and a real node with stored side branches) on bounded-exhaustive and random
 //! operation sequences, evaluates the property predicate directly against a
 //! simple specification written from the property text, and writes the same
 //! sequences with the observed answers as Coq cases for the models in
@@ -10,6 +11,7 @@ use serde_json::{json, Value};
 use std::collections::BTreeMap;
 use std::fs;
 
+mod forks;
 mod hmap;
 mod inflight;
 mod locator;
@@ -41,23 +43,26 @@ pub const G_INFLIGHT: usize = 2;
 pub const G_HMAP: usize = 3;
 pub const G_ANC: usize = 4;
 pub const G_LOC: usize = 5;
-const GROUPS: [(&str, &str, &str); 6] = [
+pub const G_FORK: usize = 6;
+const GROUPS: [(&str, &str, &str); 7] = [
     ("orphan", "orphan_case", "check_orphan"),
     ("skiph", "N * option N", "check_skip_height"),
     ("inflight", "inflight_case", "check_inflight"),
     ("hmap", "hmap_case", "check_hmap"),
     ("anc", "anc_case", "check_anc"),
     ("loc", "loc_case", "check_loc"),
+    ("fork", "fork_case", "check_fork"),
 ];
 /// groups (in the order above) whose model exists
-pub const ACTIVE_GROUPS: usize = 6;
-const HEADERS: [&str; 6] = [
+pub const ACTIVE_GROUPS: usize = 7;
+const HEADERS: [&str; 7] = [
     "From CKB Require Import Structs.AList Structs.Orphan.",
     "From CKB Require Import Structs.AList Structs.Orphan Structs.Skip.",
     "From CKB Require Import Structs.AList Structs.Orphan Structs.Skip Structs.Inflight.",
     "From CKB Require Import Structs.AList Structs.Orphan Structs.Skip Structs.Inflight Structs.HeaderMap.",
     "From CKB Require Import Structs.AList Structs.Orphan Structs.Skip Structs.Inflight Structs.HeaderMap.",
     "From CKB Require Import Structs.AList Structs.Orphan Structs.Skip Structs.Inflight Structs.HeaderMap.",
+    "From CKB Require Import Structs.AList Structs.Orphan Structs.Skip Structs.Inflight Structs.HeaderMap Structs.ActiveChain.",
 ];
 impl Ctx {
     pub fn count(&mut self, k: &str) {
@@ -96,6 +101,7 @@ fn replay(path: &str) -> ! {
         "inflight" => inflight::replay(&case, &mut viol),
         "hmap" => hmap::replay(&case, &mut viol),
         "skip_height" | "ancestor" | "locator" => skip::replay(&case, &mut viol),
+        "forks" => forks::replay(&case, &mut viol),
         _ => println!("unknown structure"),
     }
     let _ = fs::remove_dir_all(&scratch);
@@ -166,6 +172,7 @@ fn main() {
     part!("inflight", inflight::run);
     part!("hmap", hmap::run);
     part!("locator", locator::run);
+    part!("forks", forks::run);
 
     let _ = fs::remove_dir_all(&scratch);
     for (i, cf) in cx.files.iter().enumerate() {
